@@ -1964,10 +1964,12 @@ pub fn run(ctx: &Ctx) -> Outcome {
         Some("a") => out.merge(part_a(ctx)),
         Some("b") => out.merge(part_b(ctx)),
         Some("c") => out.merge(crate::checks::session_e2e::run_c19_c(ctx)),
+        Some("d") => out.merge(crate::checks::c19_handoff::run(ctx)),
         _ => {
             out.merge(part_a(ctx));
             let ex = out.exhaustive;
             out.merge(part_b(ctx));
+            out.merge(crate::checks::c19_handoff::run(ctx));
             out.exhaustive = ex;
         }
     }
